@@ -50,6 +50,11 @@ def generate(tier, seed):
         tunit = rng.choice(['AU', 'AU', 'pc']) if kind == 'conv' else 'AU'
         runit = rng.choice(['table', 'table', 'pc', 'cm', 'km', 'kpc', 'Mpc']) if kind == 'conv' else rng.choice(['bare', 'bare', 'AU', 'pc'])
         c = dict(kind=kind, aps=aps, val=val, req=req, tunit=tunit, runit=runit, below=below)
+        if kind == 'conv' and k % 10 == 7 and nap > 1:
+            # a radius a little below the smallest tabulated one, written in kpc or Mpc (where a tolerance of 1e-8 taken in the unit of
+            # the request is thousands of AU): it must be refused (seed C13_m)
+            c['tunit'], c['runit'], c['below'] = 'AU', rng.choice(['kpc', 'Mpc']), True
+            c['req'] = list(c['req']) + [lo * 0.99]
         if kind == 'conv' and k % 6 == 1 and nap > 1:
             # the request array in single precision or as whole numbers (the values are what the array holds); the table's largest
             # aperture is neither a whole number nor a single-precision number
